@@ -801,13 +801,68 @@ func (fv *FuncVerifier) arrayAsSlice(st *State, x ast.Expr, au *types.Array, xt 
 			return Val{T: mkSlice(st.vars[o], "0", n, n), Ty: st2}
 		}
 	}
-	// copy semantics (sound only while nobody writes through the slice): noted
-	fv.note("slicing a non-local array copies it into a fresh backing store (writes through such a slice are not modelled): " + fv.exprText(x))
+	// copy-in / copy-out: the slice is a view of a fresh backing row holding the array's value; when the array
+	// is an assignable location (a field reached through a pointer, an element, a local) the row is written back
+	// at the end of the enclosing statement, so writes made through the slice by that statement (copy, a callee
+	// with a modifies clause) are visible. A slice that outlives the statement is a copy: noted.
 	v := fv.eval(st, x)
 	h := fv.eng.sc.sliceHeap(au.Elem())
 	r := fv.allocRef(st)
 	st.heaps[h] = "(store " + fv.heapOf(st, h) + " " + r + " " + v.T + ")"
+	if fv.assignableArray(x) {
+		fv.pendingWB = append(fv.pendingWB, arrayWB{x: x, heap: h, ref: r, ty: xt})
+		fv.note("slicing an array field views a copy that is written back after the statement (later writes through an escaped slice are not modelled): " + fv.exprText(x))
+	} else {
+		fv.note("slicing a non-local array copies it into a fresh backing store (writes through such a slice are not modelled): " + fv.exprText(x))
+	}
 	return Val{T: mkSlice(r, "0", n, n), Ty: st2}
+}
+
+type arrayWB struct {
+	x    ast.Expr
+	heap string
+	ref  string
+	ty   types.Type
+}
+
+// assignableArray: x.f (f an array field, x a pointer or an assignable struct) or a plain local variable.
+func (fv *FuncVerifier) assignableArray(x ast.Expr) bool {
+	switch e := unparen(x).(type) {
+	case *ast.Ident:
+		o, ok := fv.info().ObjectOf(e).(*types.Var)
+		return ok && !(o.Pkg() != nil && o.Parent() == o.Pkg().Scope())
+	case *ast.SelectorExpr:
+		sel, ok := fv.info().Selections[e]
+		if !ok || sel.Kind() != types.FieldVal {
+			return false
+		}
+		bt := fv.typeOf(e.X)
+		if bt == nil {
+			return false
+		}
+		if _, isPtr := bt.Underlying().(*types.Pointer); isPtr {
+			return true
+		}
+		return fv.assignableArray(e.X)
+	}
+	return false
+}
+
+// flushWriteBacks copies the backing rows of array views taken by the statement back into the arrays.
+func (fv *FuncVerifier) flushWriteBacks(st *State) {
+	if len(fv.pendingWB) == 0 {
+		return
+	}
+	wbs := fv.pendingWB
+	fv.pendingWB = nil
+	if st.dead {
+		return
+	}
+	for _, w := range wbs {
+		v := "(select " + fv.heapOf(st, w.heap) + " " + w.ref + ")"
+		fv.assign(st, w.x, Val{T: v, Ty: w.ty})
+	}
+	fv.pendingWB = nil
 }
 
 func (fv *FuncVerifier) ptrArrayAsSlice(st *State, p string, au *types.Array) Val {
